@@ -11,9 +11,21 @@ sys.path.insert(0, HERE)
 from xv import common  # noqa: E402
 import xv.props  # noqa: E402
 
+import json  # noqa: E402
+
+ACCEPTED = set(json.load(open(os.path.join(HERE, "tools", "accepted.json"))))
 for m in sorted(pkgutil.iter_modules(xv.props.__path__), key=lambda m: m.name):
-    mod = importlib.import_module(f"xv.props.{m.name}")
-    if hasattr(mod, "translate"):
-        ctx = common.Ctx(mod.ID, "quick", 0, mod.LEVEL)
-        mod.translate(ctx)
-        print(f"{mod.ID}: translated; errors={ctx.translator_errors}")
+    try:
+        mod = importlib.import_module(f"xv.props.{m.name}")
+    except Exception as e:  # a check under construction must not break the claimed ones
+        print(f"{m.name}: not importable ({e}); skipped")
+        continue
+    if hasattr(mod, "translate") and hasattr(mod, "ID"):
+        try:
+            ctx = common.Ctx(mod.ID, "quick", 0, mod.LEVEL)
+            mod.translate(ctx)
+            print(f"{mod.ID}: translated; errors={ctx.translator_errors}")
+        except Exception as e:
+            if mod.ID in ACCEPTED:
+                raise
+            print(f"{mod.ID}: translator failed ({e}); check under construction, skipped")
